@@ -304,7 +304,7 @@ pub fn directed() -> Vec<Trace> {
         ("BlockSeparators", vec![", \u{a0}\u{202f}", ". \u{a0}\u{202f}"]),
         ("CheckRuleFiles", vec!["Prefs", "All", "None"]),
     ];
-    let exprs = [5usize, 7, 8, 10, 12, 15, 31, 38];
+    let exprs = [5usize, 7, 8, 10, 12, 15, 31, 38, pools::expr_brackets(), pools::expr_units()];
     for (name, vals) in &groups {
         for x in vals {
             for y in vals {
@@ -338,9 +338,14 @@ pub fn directed() -> Vec<Trace> {
                     continue;
                 }
                 let mut t = Trace::new("C10", "C10");
-                t.origin = format!("directed sparse away-and-back {} {}->{}->{}", name, x, y, x);
+                // every second Language pair runs with file checking switched off altogether (the documented fastest setting)
+                let no_checking = *name == "Language" && (xi + yi) % 2 == 1;
+                t.origin = format!("directed sparse away-and-back {} {}->{}->{}{}", name, x, y, x, if no_checking { " CheckRuleFiles=None" } else { "" });
                 let mut s = vec![Step::Call(Op::SetRulesDir(MOUNT_A.into())), Step::Call(Op::SetPref(name.to_string(), x.to_string()))];
-                for (k, e) in [5usize, 8, 12].iter().enumerate() {
+                if no_checking {
+                    s.push(Step::Call(Op::SetPref("CheckRuleFiles".into(), "None".into())));
+                }
+                for (k, e) in [5usize, pools::expr_brackets(), pools::expr_units(), 8, 12].iter().enumerate() {
                     let a = (xi + yi + k) % 3;
                     let b = (a + 1 + k % 2) % 3;
                     s.push(Step::Call(Op::SetMathml(ExprRef::Pool(*e))));
